@@ -69,12 +69,24 @@ func goEnv() []string {
 // check, never into a pass.
 func raceBinary(c *Ctx) (string, error) {
 	raceOnce.Do(func() {
+		raceTag := "x"
+		if len(os.Args) > 1 {
+			raceTag = os.Args[1]
+		}
 		dir, err := harnessDir()
 		if err != nil {
 			raceErr = err
 			return
 		}
-		out := filepath.Join(c.Tmp, "wharfobs.race")
+		// kept beside the normal binary (one per property, so that checks of different
+		// properties may run side by side): `go build` re-links only when something changed
+		out := filepath.Join(dir, "bin", "wharfobs-race-"+raceTag)
+		t0 := time.Now()
+		defer func() {
+			if os.Getenv("VERIF_TIMING") != "" {
+				fmt.Fprintf(os.Stderr, "race build %.1fs\n", time.Since(t0).Seconds())
+			}
+		}()
 		cmd := exec.Command("go", "build", "-race", "-tags", "verif", "-o", out, "./cmd/wharfobs")
 		cmd.Dir = dir
 		cmd.Env = goEnv()
